@@ -98,7 +98,10 @@ class C02(HistoryProp):
     rule = ("one run = base commit + 1..3 composed scenario families (plain commits, rebase plain/--onto/-i with "
             "reorder/squash/fixup/drop/edit/reword, cherry-pick one/range, amend, merge, merge --squash, reset "
             "--soft/--mixed + re-commit whole or in pieces, stash push + upstream change + pop/apply, switch/checkout "
-            "carrying work, dry-run/failing commands), each with a drawn position class of the upstream change "
+            "carrying work - also to a branch at another commit with --merge -, git pull in its forms (ff with pending work, "
+            "--rebase, --rebase --autostash, merge), pathspec reset / stash, amend after a partial commit, the rebase / "
+            "cherry-pick note-copy shortcut classes, retry after an aborted rebase / cherry-pick and further AI work "
+            "after an abort, dry-run/failing commands), each with a drawn position class of the upstream change "
             "(above/below/interleaved/other file/conflicting) and conflicts resolved (union/ours/theirs) and continued "
             "or aborted; oracle = Ledger vs overlay and git-ai blame at HEAD after every rewriting/committing step and at "
             "every branch tip at the end, plus notes/pending-attribution unchanged across aborted, failed and dry-run "
